@@ -1601,7 +1601,8 @@ def sort(a, axis=-1, **kw):
     if a.is_concrete():
         return asarray(_np.sort(a.to_numpy(), axis=axis))
     if a.ndim != 1:
-        raise ShimMissing("sort of symbolic nd array")
+        from . import symnp_extra
+        return symnp_extra.sort_axis(a, axis)
     vals = a.flat_values()
     return SymArray.from_list([vals[i] for i in _forking_order(vals)], a.shape, a.dtype)
 
@@ -1738,7 +1739,8 @@ def tile(a, reps):
         return SymArray.from_list(row * reps[0], (reps[0], a.size * reps[1]), a.dtype)
     if a.is_concrete():
         return asarray(_np.tile(a.to_numpy(), reps))
-    raise ShimMissing("tile")
+    from . import symnp_extra
+    return symnp_extra.tile(a, reps)
 
 
 def repeat(a, n, axis=None):
@@ -1843,6 +1845,9 @@ def broadcast_to(a, shape):
 
 def pad(a, pad_width, mode='constant', constant_values=0, **kw):
     a = asarray(a)
+    if mode == 'edge':
+        from . import symnp_extra
+        return symnp_extra.pad_edge(a, pad_width)
     if mode != 'constant':
         raise ShimMissing("pad mode " + mode)
     n = a.size
@@ -2124,6 +2129,10 @@ def __getattr__(name):
                 ra = [_to_real(v) for v in a]
                 rk = {kk: _to_real(v) for kk, v in k.items()}
             except ShimMissing:
+                from . import symnp_extra
+                f = symnp_extra.EXPORT.get(name)
+                if f is not None:
+                    return f(*a, **k)
                 raise ShimMissing("numpy.%s with symbolic arguments is not shimmed" % name)
             return _from_real(real(*ra, **rk))
         wrapper.__name__ = name
